@@ -30,6 +30,7 @@ PROPS = {
     "C04": {"jobs": [rapid("TestC04", 1500, 10000)]},
     "C05": {"jobs": [rapid("TestC05", 1500, 15000)]},
     "C07": {"jobs": [rapid("TestC07", 8000, 60000), enum("TestC07Bounded")]},
+    "C08": {"jobs": [rapid("TestC08Runs", 800, 5000), rapid("TestC08Engines", 3000, 20000), rapid("TestC08Services", 2000, 10000), rapid("TestC08Request", 1500, 6000)]},
     "C09": {"jobs": [rapid("TestC09", 3000, 10000), enum("TestC09Truncations"), enum("TestC09TCPOptions")] +
             [fuzz("FuzzC09" + v) for v in ("icmp4", "icmp6", "udp4", "udp6", "tcp", "tcpparis", "sack", "Parser")]},
     "C10": {"jobs": [enum("TestC10Single"), rapid("TestC10Multi", 2500, 8000)]},
